@@ -10,11 +10,19 @@ MAX_COL = 1000
 
 
 class Node:
+    """formula node as an attribute bag. A keyword NOFIELD_<name> gives the attribute its protobuf default sub-message
+    (readable) without the field being present (HasField false)."""
+
     def __init__(self, **kw):
-        self.__dict__.update(kw)
+        self._absent = set()
+        for k, v in kw.items():
+            if k.startswith("NOFIELD_"):
+                k = k[len("NOFIELD_"):]
+                self._absent.add(k)
+            self.__dict__[k] = v
 
     def HasField(self, name):
-        return name in self.__dict__
+        return name in self.__dict__ and name not in self._absent
 
 
 class NameCache:
@@ -148,6 +156,90 @@ def h09a_rect(row, col, rb, re, cb, ce, rb_abs, re_abs, cb_abs, ce_abs, row_wind
     assert (ca, ra) == (ce_abs, re_abs) and (r, c) == (tre, tce)
 
 
+def parse_row(s):
+    """($?)(digits) -> (absolute, zero-based row)"""
+    i = 0
+    ab = False
+    if s[i] == "$":
+        ab = True
+        i += 1
+    assert i < len(s)
+    row = 0
+    while i < len(s):
+        assert "0" <= s[i] <= "9"
+        row = row * 10 + (ord(s[i]) - 48)
+        i += 1
+    return ab, row - 1
+
+
+def parse_col(s):
+    """($?)([A-Z]+) -> (absolute, zero-based column)"""
+    i = 0
+    ab = False
+    if s[i] == "$":
+        ab = True
+        i += 1
+    assert i < len(s)
+    col = 0
+    while i < len(s):
+        assert "A" <= s[i] <= "Z"
+        col = col * 26 + (ord(s[i]) - 64)
+        i += 1
+    return ab, col - 1
+
+
+OPEN_ROW = 0x7FFFFFFF
+OPEN_COL = 0x7FFF
+
+
+def h09a_span(row, col, b, e, b_abs, e_abs, rows):
+    """whole-row span 'r1:r2' / whole-column span 'C1:C2' stored as a colon tract whose other axis is open-ended: both
+    end points resolved independently, not swapped, nothing of the open axis printed"""
+    limit = MAX_ROW if rows else MAX_COL
+    host = row if rows else col
+    tb = b if b_abs else host + b
+    te = e if e_abs else host + e
+    assume(0 <= row < MAX_ROW and 0 <= col < MAX_COL)
+    assume(0 <= tb <= te < limit)
+    m = RefModel([("Sheet 1", [(7, "Table 1")])])
+    lists = axis_lists(b_abs, e_abs, b, e)
+    open_row = ([entry(OPEN_ROW, None)], [])
+    open_col = ([entry(OPEN_COL, None)], [])
+    ar, rr = lists if rows else open_row
+    ac, rc = open_col if rows else lists
+    node = Node(AST_colon_tract=Node(absolute_row=ar, relative_row=rr, absolute_column=ac, relative_column=rc),
+                AST_sticky_bits=Node(begin_row_is_absolute=b_abs if rows else False, end_row_is_absolute=e_abs if rows else False,
+                                     begin_column_is_absolute=False if rows else b_abs, end_column_is_absolute=False if rows else e_abs))
+    text = str(m.node_to_ref(7, row, col, node))
+    parts = text.split(":")
+    assert len(parts) == 2
+    first = parse_row(parts[0]) if rows else parse_col(parts[0])
+    second = parse_row(parts[1]) if rows else parse_col(parts[1])
+    assert first == (b_abs, tb)
+    assert second == (e_abs, te)
+
+
+def h09a_single_axis(row, col, v, v_abs, rows):
+    """a reference to one whole row ('r:r') or one whole column ('C'), stored as a row-only / column-only node"""
+    limit = MAX_ROW if rows else MAX_COL
+    host = row if rows else col
+    tv = v if v_abs else host + v
+    assume(0 <= row < MAX_ROW and 0 <= col < MAX_COL and 0 <= tv < limit)
+    m = RefModel([("Sheet 1", [(7, "Table 1")])])
+    if rows:
+        node = Node(AST_row=Node(row=v, absolute=v_abs), NOFIELD_AST_column=Node(column=0, absolute=False))
+    else:
+        node = Node(AST_column=Node(column=v, absolute=v_abs), NOFIELD_AST_row=Node(row=0, absolute=False))
+    text = str(m.node_to_ref(7, row, col, node))
+    if rows:
+        parts = text.split(":")
+        assert len(parts) == 2
+        assert parse_row(parts[0]) == (v_abs, tv)
+        assert parse_row(parts[1]) == (v_abs, tv)
+    else:
+        assert parse_col(text) == (v_abs, tv)
+
+
 def h09b_qualify(n_host, n_same, n_other, n_third, n_fourth, target, s2, s3):
     """a reference into another table is qualified so that, given the document's own names, exactly one table matches -
     the stored one"""
@@ -177,6 +269,104 @@ def h09b_qualify(n_host, n_same, n_other, n_third, n_fourth, target, s2, s3):
     assert matches == [target]
 
 
+# ------------------------------------------------------------------------------------------------ header labels
+class HCell:
+    def __init__(self, text):
+        self.formatted_value = text
+
+
+class NamedModel(Cacheable):
+    """two sheets: sheet 0 holds the host table 7 and table 8, sheet 1 holds table 9. Every table is 2 rows x 2 columns with
+    one header row (column labels) and no header column. The REAL ScopedNameRefCache computes the name scopes."""
+    node_to_ref = _NumbersModel.node_to_ref
+
+    def __init__(self, names, labels):
+        from numbers_parser.xrefs import ScopedNameRefCache
+        self.names = names                    # table id -> table name
+        self._table_data = {t: [[HCell(labels[t][0]), HCell(labels[t][1])], [HCell("1"), HCell("2")]] for t in (7, 8, 9)}
+        self.name_ref_cache = ScopedNameRefCache(self)
+
+    def sheet_ids(self):
+        return [0, 1]
+
+    def table_ids(self, sheet_id=None):
+        if sheet_id is None:
+            return [7, 8, 9]
+        return [7, 8] if sheet_id == 0 else [9]
+
+    def table_names(self):
+        return [self.names[t] for t in (7, 8, 9)]
+
+    def table_name(self, table_id):
+        return self.names[table_id]
+
+    def sheet_name(self, sheet_id):
+        return "S%d" % sheet_id
+
+    def table_id_to_sheet_id(self, table_id):
+        return 1 if table_id == 9 else 0
+
+    def table_uuids_to_id(self, uuid):
+        return uuid
+
+    def num_header_rows(self, table_id):
+        return 1
+
+    def num_header_cols(self, table_id):
+        return 0
+
+    def number_of_rows(self, table_id):
+        return 2
+
+    def number_of_columns(self, table_id):
+        return 2
+
+
+def h09c_named(l70, l71, l80, l81, l90, l91, n8, n9, target, tcol, absolute):
+    """a whole-column reference into another table is printed by header label when the label is unique in its table, and
+    qualified with just enough of table / sheet name that - read against the document's own labels and names, narrower
+    scopes shadowing wider ones - exactly one column matches: the stored one"""
+    labels = {7: [l70, l71], 8: [l80, l81], 9: [l90, l91]}
+    names = {7: "H", 8: "T" + n8, 9: "T" + n9}
+    sheet_of = {7: 0, 8: 0, 9: 1}
+    m = NamedModel(names, labels)
+    node = Node(AST_column=Node(column=tcol, absolute=absolute), NOFIELD_AST_row=Node(row=0, absolute=False),
+                AST_cross_table_reference_extra_info=Node(table_id=target))
+    # host cell (1, 0) of table 7; relative column offsets are from column 0
+    text = str(m.node_to_ref(7, 1, 0, node))
+    parts = text.split("::")
+    last = parts[-1]
+    if absolute:
+        assert last[0] == "$"
+        last = last[1:]
+    assert len(last) == 1
+    # which tables does the prefix select?
+    if len(parts) == 1:
+        tables = None                         # resolved by label scope below
+    elif len(parts) == 2:
+        here = [t for t in (7, 8, 9) if sheet_of[t] == 0 and names[t] == parts[0]]
+        tables = here if here else [t for t in (7, 8, 9) if names[t] == parts[0]]
+    else:
+        assert len(parts) == 3
+        tables = [t for t in (7, 8, 9) if "S%d" % sheet_of[t] == parts[0] and names[t] == parts[1]]
+    if "A" <= last <= "Z":
+        # column letter: only meaningful with an explicit table
+        assert tables is not None
+        matches = [(t, ord(last) - 65) for t in tables]
+    else:
+        def cols(ts):
+            return [(t, c) for t in ts for c in (0, 1) if labels[t][c] == last]
+        if tables is not None:
+            matches = cols(tables)
+        else:
+            matches = cols([7])                                   # the host table's own labels shadow everything
+            if not matches:
+                matches = cols([8])                               # then the other tables of the host sheet
+            if not matches:
+                matches = cols([9])                               # then the rest of the document
+    assert matches == [(target, tcol)]
+
+
 class NumbersUUIDStub:
     def __init__(self, v):
         self.hex = v
@@ -185,6 +375,7 @@ class NumbersUUIDStub:
 import numbers_parser.model as modelmod  # noqa: E402
 
 ALNUM = [(65, 90), (48, 57)]
+LABELS = [(97, 104)]
 ROW_WINDOWS = [(0, 100), (0x7FFF - 7, 0x7FFF + 9), (0xFFFF - 7, 0xFFFF + 9)]
 HARNESSES = [
     Harness("H09a-cell", h09a_cell,
@@ -201,6 +392,24 @@ HARNESSES = [
             bounds="rectangle corners: every int combination with begin <= end inside the row windows [0,100), [32760,32776), "
                    "[65528,65544) (quick: the low rows and the rows around the 15/16-bit constants the code compares against) / all "
                    "1 000 000 rows (thorough) x 1000 columns, host anywhere in the table limits; all 16 absolute-flag combinations"),
+    Harness("H09a-span", h09a_span,
+            dict(row=IntDom(), col=IntDom(), b=IntDom(), e=IntDom(), b_abs=BoolDom(), e_abs=BoolDom(), rows=Cases([True, False])),
+            bounds="whole-row spans (any rows inside 1 000 000) and whole-column spans (any columns inside 1000) as colon tracts with the "
+                   "other axis open-ended (0x7FFFFFFF / 0x7FFF); host anywhere; all absolute-flag combinations"),
+    Harness("H09a-axis", h09a_single_axis,
+            dict(row=IntDom(), col=IntDom(), v=IntDom(), v_abs=BoolDom(), rows=Cases([True, False])),
+            bounds="single whole-row / whole-column references (row-only / column-only nodes), relative or absolute, host anywhere"),
+    Harness("H09c", h09c_named,
+            dict(l70=StrDom(1, LABELS), l71=StrDom(1, LABELS), l80=StrDom(1, LABELS), l81=StrDom(1, LABELS), l90=StrDom(1, LABELS),
+                 l91=StrDom(1, LABELS), n8=StrDom(1, [(120, 121)]), n9=StrDom(1, [(120, 121)]), target=Cases([8, 9]), tcol=Cases([0, 1]),
+                 absolute=BoolDom()),
+            bounds="3 tables (host + one on the same sheet + one on another sheet) with 2 labelled columns each; the six labels are "
+                   "symbolic characters a..h (every equality pattern: unique, duplicated within a table, a sheet, the document), the two "
+                   "target tables' names equal or not; target column and absolute flag symbolic",
+            stubs=["model stub: table data = header cells with a formatted_value; the real ScopedNameRefCache / CellRange compute scopes "
+                   "and text; NumbersUUID(...).hex identity"],
+            outside=["row labels, labels containing operator characters or quotes, labels that look like A1 references"],
+            patches=[(modelmod, "NumbersUUID", NumbersUUIDStub)]),
     Harness("H09b", h09b_qualify,
             dict(n_host=StrDom(1, ALNUM), n_same=StrDom(1, ALNUM), n_other=StrDom(1, ALNUM), n_third=StrDom(1, ALNUM), n_fourth=StrDom(1, ALNUM), target=Cases([8, 9, 10, 11]), s2=StrDom(1, ALNUM), s3=StrDom(1, ALNUM)),
             bounds="3 sheets with 2+2+1 tables; table and sheet names carry one symbolic alphanumeric character each, so every equality pattern "
